@@ -568,7 +568,7 @@ func c05(r *core.Run) {
 	r.Rule("C05/R0", "scope closure: every EndBlock of the custom modules is empty; BeginBlock scope = functions reachable from the non-empty BeginBlockers")
 	r.Rule("C05/R1", "divisions guarded: every Quo/Mod/'/'/'%' in scope with a non-constant divisor has a zero guard on all paths, a validated-positive parameter source (directly or through a record field), positive call-site arguments, or is a named exception")
 	r.Rule("C05/R2", "coin constructors non-negative: the amount of every NewCoin/NewInt64Coin in scope is non-negative in the sign domain, or is a named exception")
-	r.Rule("C05/R3", "user-sized fields validated at the door: MsgPostFile.FileSize and .MaxProofs are rejected below 1 by ValidateBasic")
+	r.Rule("C05/R3", "user-sized fields validated at the door: MsgPostFile.FileSize and .MaxProofs are rejected below 1 by ValidateBasic, an overflowing product is rejected by the division form, and the wasm entry validates before calling the handler")
 	r.Rule("C05/R4", "no explicit panic and no Must* on non-constant input in scope (codec Must(Un)Marshal of stored values excepted, see C18/R1)")
 	r.Rule("C05/R5", "constant indices in scope are behind a length guard, or are index 0 of a strings.Split result")
 	bb, eb := p.BlockEntries()
@@ -597,6 +597,12 @@ func c05(r *core.Run) {
 			c.door[f] = ok
 			r.Check(ok, "C05/R3", "postfile:unvalidated:"+f, p.Pos(vb.Pos()), "ValidateBasic rejects "+f+" < 1", "MsgPostFile.ValidateBasic accepts zero or negative "+f+", which flows through stored files into BeginBlock arithmetic (zero network size, negative shares)")
 		}
+	}
+	if vb := p.FuncByName("x/storage/types", "MsgPostFile", "ValidateBasic"); vb != nil {
+		r.Check(productOverflowGuarded(p, vb, "FileSize", "MaxProofs"), "C05/R3", "postfile:product-overflow-checked", p.Pos(vb.Pos()), "ValidateBasic rejects FileSize > MaxInt64/MaxProofs", "MsgPostFile.ValidateBasic does not reject an overflowing FileSize*MaxProofs by the division form (a sign test of the wrapped product misses products that wrap past 2^64): the footprint charged and stored is the wrapped value")
+	}
+	if hs5, err := p.Handlers(); err == nil {
+		wasmDoorValidated(r, "C05/R3", hs5, "storage.MsgPostFile")
 	}
 	funcs := core.SortedFuncs(scope)
 	nDiv, nCoin, nIdx := 0, 0, 0
